@@ -56,6 +56,32 @@ AddVs 6
 @QHOV 0
 @QVOH 0 1
 @QTVI 0 1""",
+    # former finding (fixed in /repo: 814053a "checked tet add_cell must reject four triangles on fewer than four vertex triples"):
+    # two pillows on FOUR vertices over a parallel edge / on duplicate faces - four triangles, four distinct vertices, every halfedge
+    # matched once.  The checked add_cell must reject both (model and library agree).  (The unchecked add_cell stores such a pillow -
+    # the caller's responsibility, Theorem C15_unchecked_add_cell_stores_two_pillows; not replayed: the impl-side oracle judges every
+    # cell on four distinct vertices.)
+    # Regression Examples C15_two_pillows_on_a_parallel_edge_rejected / _on_duplicate_faces_rejected (Props/Properties_C15_C16_created.v)
+    "tet-two-pillows-parallel-edge": """Mesh tet
+AddVs 4
+@AddFV 0 1 2
+@AddE 1 2 1
+@AddE 2 3 0
+@AddE 3 1 0
+@AddF 1 6 8 10
+@AddC 1 0 1 2 3
+QTetAll""",
+    "tet-two-pillows-duplicate-faces": """Mesh tet
+AddVs 4
+@AddFV 0 1 2
+@AddF 1 0 2 4
+@AddE 1 2 1
+@AddE 2 3 0
+@AddE 3 1 0
+@AddF 1 6 8 10
+@AddF 1 6 8 10
+@AddC 1 0 3 4 7
+QTetAll""",
     # the witnesses of C15_tet_shape_invariant_unconditional_refuted (Props/Properties_C15_C16_full.v): two tets on the SAME
     # halfface 0 (the second added without topology check).  OUT OF CONTRACT (C01's quantifier "no halfface is used by two live
     # cells" is inherited): run for the lock step (model and library agree on the three-halfface survivor), not judged by the
@@ -444,6 +470,7 @@ def check_C15(ctx):
     fw.coq_prove(ctx, "Props/Properties_C15.v")
     import checks
     checks.also_prove_file(ctx, "Props/Properties_C15_C16_full.v")
+    checks.also_prove_file(ctx, "Props/Properties_C15_C16_created.v")
     build_models(ctx)
     r = Runner(ctx, "C15", "run_tet", TET_CORPUS, C15_OPS)
     if r.ok():
@@ -511,6 +538,7 @@ def check_C16(ctx):
     fw.coq_prove(ctx, "Props/Properties_C16.v")
     import checks
     checks.also_prove_file(ctx, "Props/Properties_C15_C16_full.v")
+    checks.also_prove_file(ctx, "Props/Properties_C15_C16_created.v")
     build_models(ctx)
     r = Runner(ctx, "C16", "run_hex", HEX_CORPUS, C16_OPS)
     if r.ok():
